@@ -23,7 +23,7 @@ EXPLANATION = (
     "row-set equality on real data; MultiIndex label round trip through str/eval."
 )
 LEVEL_RULE = "one obligation per backend validate / fold step / typestate use"
-FLOORS = {"R1": 5, "R2": 7, "R3": 2, "R4": 5}
+FLOORS = {"R1": 5, "R2": 7, "R3": 2, "R4": 5, "R5": 1}
 
 
 def _validates(ix):
@@ -230,9 +230,51 @@ def r4_wiring(ctx):
                "raise SchemaErrors under `not drop_invalid_rows`" if ok else "no SchemaErrors raise on the non-dropping branch")
 
 
+def r5_no_rowwise_dropna_before_reshape(ctx):
+    """The failing labels that drive the drop come from reshape_failure_cases.  Null *cells* are discarded only after a
+    wide table of failure cases has been brought to long form (one row per cell): `DataFrame.dropna()` on the wide table
+    removes every failing row that holds a null in any other column, and that row is then neither reported nor
+    dropped.  So no path leads from a dropna() on the failure cases to the reshaping step (unstack / melt / stack)."""
+    ix = ctx.ix
+    m = ix.module("pandera/backends/pandas/error_formatters.py")
+    f = m.functions.get("reshape_failure_cases")
+    if f is None:
+        raise AnalysisError("reshape_failure_cases not found")
+    ctx.touched(f)
+    cfg = cfg_of(f.node)
+    drops, reshapes = [], []
+    for st in function_stmts(f):
+        node = cfg.node_of(st)
+        if node is None:
+            continue
+        exprs = [st.test] if isinstance(st, (ast.If, ast.While)) else [st]
+        for e in exprs:
+            for c in calls_in(e):
+                if callee_last(c) == "dropna" and not kw(c, "subset") and not (kw(c, "how") is not None and getattr(kw(c, "how"), "value", None) == "all"):
+                    drops.append((c, node))
+                if callee_last(c) in ("unstack", "melt", "stack"):
+                    reshapes.append((c, node))
+    if not reshapes:
+        raise AnalysisError("reshape_failure_cases: no reshaping step found")
+    bad = []
+    for c, dn in drops:
+        reach = cfg.reachable(dn.id)
+        for r, rn in reshapes:
+            if rn.id in reach and rn.id != dn.id:
+                bad.append((c, r))
+            elif rn.id == dn.id and c.lineno <= r.lineno and any(x is c for x in ast.walk(r)):
+                bad.append((c, r))  # dropna() feeding the reshape within one expression
+    ctx.ob("R5", f, "null cells are discarded after the failure cases are in long form", not bad,
+           f"{len(drops)} dropna() call(s), none before {len(reshapes)} reshaping step(s)" if not bad else
+           f"`{txt(bad[0][0])[:50]}` (line {bad[0][0].lineno}) runs before `{txt(bad[0][1])[-40:]}` (line {bad[0][1].lineno}): on a wide table it removes whole "
+           "failing rows that hold a null in another column - such a row is neither reported nor dropped by drop_invalid_rows",
+           f.loc(bad[0][0]) if bad else f.loc(f.node))
+
+
 def run(ctx):
     r1_precondition(ctx)
     r2_shape(ctx)
     r3_typestate(ctx)
     r4_wiring(ctx)
+    r5_no_rowwise_dropna_before_reshape(ctx)
     ctx.assume("Index.isin / DataFrame.loc / LazyFrame.filter have their documented meaning")
